@@ -238,7 +238,8 @@ WellLinkedD(p, m, asBuilt) ==
     LET c    == CtrlOf(p, m)
         ph   == Placeholders(FullText(c, m))
         bind == [i \in PathAnns(m) |-> WireName(m.anns[i])]
-    IN  /\ \A i, j \in DOMAIN ph : i # j => ph[i] # ph[j]                                   \* no duplicate {name}
+    IN  /\ \A j \in DOMAIN m.anns : "rawProps" \notin DOMAIN m.anns[j]                       \* a malformed properties object (e.g. {name: 1}) is an error
+        /\ \A i, j \in DOMAIN ph : i # j => ph[i] # ph[j]                                   \* no duplicate {name}
         /\ \A x \in Range(ph) : Cardinality({i \in PathAnns(m) : bind[i] = x}) = 1           \* each {name} bound exactly once
         /\ \A i \in PathAnns(m) : (asBuilt /\ m.anns[i].alias = "") \/ bind[i] \in Range(ph)  \* each @Path binds a {name}
         /\ \A i \in NonCtx(m) : Cardinality({j \in ParamAnns(m) : m.anns[j].value = m.sig[i].name}) = 1
